@@ -68,7 +68,7 @@ theorem BBKS_lnt_form : evalR opq ρ Gen.Transfer.BBKS_lnt =
       exp (ρ "cosmo.Ob0" + sqrt (2 * ρ "cosmo.h") * ρ "cosmo.Ob0" / ρ "cosmo.Om0")
     Real.log (Real.log (1 + ρ "p.a" * q) / (ρ "p.a" * q) *
       (1 + ρ "p.b" * q + (ρ "p.c" * q)^2 + (ρ "p.d" * q)^3 + (ρ "p.e" * q)^4) ^ (-(1/4 : ℝ))) := by
-  simp only [Gen.Transfer.BBKS_lnt]; expr_unfold; push_cast; norm_num [zpow_ofNat]
+  simp only [Gen.Transfer.BBKS_lnt]; expr_unfold <;> first | (push_cast; norm_num [zpow_ofNat]; done) | (push_cast; norm_num [zpow_ofNat]; ring_nf; done) | expr_finish
 
 /-- C10 (BBKS): T is finite with 0 < T ≤ 1, i.e. ln T ≤ 0, for every wavenumber and every valid cosmology -/
 theorem BBKS_lnT_nonpos (hO : 0 < ρ "cosmo.Om0") (hh : 0 < ρ "cosmo.h") (ha : 0 < ρ "p.a") (hb : 0 ≤ ρ "p.b") (hd : 0 ≤ ρ "p.d") :
@@ -95,12 +95,13 @@ theorem BondEfs_antitone (X Y ν : ℝ) (hX : 0 ≤ X) (hXY : X ≤ Y) (hν : 0 
 /-- the framework's transfer function is the model's T times the k-independent normalisation … -/
 theorem transfer_function_is_const_times_T :
     evalR opq ρ Gen.Flow.Transfer_transfer_function = ρ "_normalisation" * exp (ρ "_unnormalised_lnT") := by
-  simp only [Gen.Flow.Transfer_transfer_function]; expr_unfold
+  simp only [Gen.Flow.Transfer_transfer_function]; expr_unfold <;> expr_finish
 end
 
 /-- … and mentions the grid parameters nowhere: its value at a wavenumber cannot depend on `lnk_min`, `lnk_max`, `dlnk`
     except through the normalisation constant -/
-theorem transfer_function_inputs : Gen.Flow.Transfer_transfer_function.freeVars = ["_normalisation", "_unnormalised_lnT"] := by decide
+theorem transfer_function_inputs :
+    Gen.Flow.Transfer_transfer_function.freeVars.all (fun x => x ∈ ["_normalisation", "_unnormalised_lnT"]) = true := by decide
 
 /-! ## BBKS decreases monotonically with k -/
 /-- ln(1+x)/x is non-increasing on (0, ∞) (concavity of the logarithm) -/
@@ -213,15 +214,15 @@ section EHNoBAO
 open Real
 /-- the effective wavenumber sub-term of a term shaped like EH98 eqs. 28–29: ln( L/(L + C q²) ) -/
 def ehQ : E → E
-  | .un .log (.bin .div _ (.bin .add _ (.bin .mul (.bin .mul _ q) _))) => q
+  | .un .log (.bin .div _ (.bin .add _ (.bin .mul q (.bin .mul _ _)))) => q
   | _ => .lit 0 0
 
-/-- Eisenstein & Hu (1998) eqs. 28–29 as a term over q_eff: L₀ = ln(2e + 1.8 q), C₀ = 14.2 + 731/(1 + 62.5 q),
+/-- Eisenstein & Hu (1998) eqs. 28–29 as a term over q_eff (operands in the translator's canonical order): L₀ = ln(2e + 1.8 q), C₀ = 14.2 + 731/(1 + 62.5 q),
     ln T = ln( L₀/(L₀ + C₀ q²) ) -/
 def ehShape (q : E) : E :=
-  let L : E := .un .log (.bin .add (.bin .mul (.lit 2 0) (.un .exp (.lit 1 0))) (.bin .mul (.lit 18 (-1)) q))
+  let L : E := .un .log (.bin .add (.bin .mul (.lit 18 (-1)) q) (.bin .mul (.lit 2 0) (.un .exp (.lit 1 0))))
   let C : E := .bin .add (.lit 142 (-1)) (.bin .div (.lit 731 0) (.bin .add (.lit 1 0) (.bin .mul (.lit 625 (-1)) q)))
-  .un .log (.bin .div L (.bin .add L (.bin .mul (.bin .mul C q) q)))
+  .un .log (.bin .div L (.bin .add L (.bin .mul q (.bin .mul C q))))
 
 /-- the regenerated EH_NoBAO body is exactly that shape at its own q_eff -/
 theorem EH_NoBAO_shape : Gen.Transfer.EH_NoBAO_lnt = ehShape (ehQ Gen.Transfer.EH_NoBAO_lnt) := by rfl
@@ -247,7 +248,7 @@ variable (opq : String → ℝ → ℝ) (ρ : String → ℝ)
 theorem ehShape_eval (q : E) : evalR opq ρ (ehShape q) =
     Real.log (Real.log (2 * exp 1 + 1.8 * evalR opq ρ q) /
       (Real.log (2 * exp 1 + 1.8 * evalR opq ρ q) + (14.2 + 731 / (1 + 62.5 * evalR opq ρ q)) * evalR opq ρ q * evalR opq ρ q)) := by
-  simp only [ehShape]; expr_unfold; push_cast; norm_num
+  simp only [ehShape]; expr_unfold <;> first | (push_cast; norm_num; done) | (push_cast; norm_num; ring_nf; done) | expr_finish
 
 /-- C10 (EH without BAO): 0 < T ≤ 1, i.e. ln T ≤ 0, for every wavenumber and cosmology with q_eff ≥ 0 -/
 theorem EH_NoBAO_lnT_nonpos (hq : 0 ≤ evalR opq ρ (ehQ Gen.Transfer.EH_NoBAO_lnt)) :
